@@ -101,9 +101,12 @@ theorem findRun_runsOf_out (n s : Nat) (rest : List Run) (off : Int) (h2 : off >
 def flush (p : Int) (line : Int) : List Run :=
   if p = 0 then [] else if p > 0 then runsOf p.toNat (u16 line) else [⟨u8 p, u16 line⟩]
 
+theorem aProgram_ne_aInitializer : ¬ aProgram = aInitializer := by decide
+
 theorem switchToLine_li (st : Enc) (l cur : Int) :
     (switchToLine st l cur aProgram).li = st.li ++ flush (cur - st.lastSize) st.lineBeing := by
   unfold switchToLine flush Enc.li
+  simp only [aProgram_ne_aInitializer, ↓reduceIte]
   by_cases h0 : cur - st.lastSize = 0
   · simp [h0]
   · by_cases h1 : cur - st.lastSize > 0
@@ -113,6 +116,7 @@ theorem switchToLine_li (st : Enc) (l cur : Int) :
 theorem switchToLine_lastSize (st : Enc) (l cur : Int) :
     (switchToLine st l cur aProgram).lastSize = cur := by
   unfold switchToLine
+  simp only [aProgram_ne_aInitializer, ↓reduceIte]
   by_cases h0 : cur - st.lastSize = 0
   · simp [h0]; omega
   · simp [h0]; omega
@@ -120,6 +124,7 @@ theorem switchToLine_lastSize (st : Enc) (l cur : Int) :
 theorem switchToLine_lineBeing (st : Enc) (l cur : Int) :
     (switchToLine st l cur aProgram).lineBeing = l := by
   unfold switchToLine
+  simp only [aProgram_ne_aInitializer, ↓reduceIte]
   by_cases h0 : cur - st.lastSize = 0 <;> simp [h0]
 
 /-- drive the encoder with one emission: the code generator switches to line `e.1`, then generates `e.2` bytes -/
